@@ -52,6 +52,10 @@ func GenPackage(r *Rand, name string, nfuncs int) (string, GenStats) {
 			g.genericFunc()
 		}
 	}
+	// always present: range-over-func loops whose body defers (the yield closure captures the enclosing defer stack)
+	for v := 0; v < 2; v++ {
+		g.rfDeferFunc(v)
+	}
 	// always present: Lengauer-Tarjan "relative dominator" chains with permuted label order
 	for v := 0; v < 3; v++ {
 		g.domChainFunc()
@@ -85,6 +89,25 @@ func (g *gen) escFunc(variant int) {
 		g.p("func %s(a int, c bool) int {\n\tvar p *int\n\ts := 0\n\tif c { goto M }\n", name)
 		g.p("L:\n\t{\n\t\tx := a + %d\n\t\ts += x\n\t\t%s\n\t\tif s > %d { goto M }\n\t\tp = &x\n\t\tgoto J\n\t}\n", k1, extra, k2)
 		g.p("M:\n\ts++\n\tif s < %d { goto L }\nJ:\n\tif p != nil { s += *p }\n\treturn s\n}\n\n", k2+5)
+	}
+}
+
+// rfDeferFunc: a range-over-func loop with a `defer` in its body: the synthetic yield function defers onto the
+// enclosing function's defer stack, so the enclosing function's defer$stack cell is captured (escapes), while
+// other locals of the enclosing function (n, w) stay liftable.
+func (g *gen) rfDeferFunc(variant int) {
+	g.st.StructFuncs++
+	name := g.fresh("RfDefer")
+	k := 2 + g.r.Intn(7)
+	if variant == 0 {
+		g.p("func %s(a int, b []int) (res int) {\n\tn := a + %d\n\tw := 0\n", name, k)
+		g.p("\tfor i, v := range iter(a) {\n\t\tdefer func() { G += i }()\n\t\tif v > %d { break }\n\t\tres += v\n\t}\n", k*k)
+		g.p("\tfor _, x := range b { if x > n { w += x } else { n++ } }\n\treturn n*2 + w\n}\n\n")
+	} else {
+		g.p("func %s(a int, b []int) (res int) {\n\tn, w := a, 1\n\tdefer func() { if recover() != nil { res = -1 } }()\n", name)
+		g.p("\tif a > %d { n -= %d } else { w = n * 3 }\nouter:\n\tfor i := range iter(a) {\n\t\tfor j, v := range iter(i) {\n", k, k)
+		g.p("\t\t\tdefer func() { G += j + v }()\n\t\t\tif v == %d { continue outer }\n\t\t\tif j > %d { return j }\n\t\t\tres++\n\t\t}\n\t}\n", k, k+3)
+		g.p("\tfor n < w { n += 2 }\n\treturn n + w\n}\n\n")
 	}
 }
 
